@@ -43,7 +43,7 @@ func streamsPkgFuncs(p *Program) []*FuncInfo {
 // wordKey resolves a pointer expression used as the first argument of an atomic call to the stream word it
 // designates: "&s.streams[IDX]" directly, or a local pointer defined once from such an expression. It returns
 // the index expression.
-func wordKey(info *types.Info, fi *FuncInfo, e ast.Expr) (idx ast.Expr, ok bool) {
+func wordKey(p *Program, info *types.Info, fi *FuncInfo, e ast.Expr) (idx ast.Expr, ok bool) {
 	e = ast.Unparen(e)
 	if u, isU := e.(*ast.UnaryExpr); isU && u.Op == token.AND {
 		if ix, isIx := ast.Unparen(u.X).(*ast.IndexExpr); isIx {
@@ -68,10 +68,54 @@ func wordKey(info *types.Info, fi *FuncInfo, e ast.Expr) (idx ast.Expr, ok bool)
 	}
 	if id, isId := e.(*ast.Ident); isId && info.Uses[id] != nil && singleAssigned(info, fi.Decl.Body, info.Uses[id]) {
 		if d := localDef(info, fi, id); d != nil {
-			return wordKey(info, fi, d)
+			return wordKey(p, info, fi, d)
+		}
+	}
+	// a *uint64 parameter that every caller binds to the address of a stream word: the parameter stands for that word
+	if id, isId := e.(*ast.Ident); isId {
+		if _, sites := wordParamSites(p, fi, id); len(sites) > 0 {
+			return id, true
 		}
 	}
 	return nil, false
+}
+
+// wordParamSites: id is a never-reassigned pointer parameter of fi and every static call of fi passes the address
+// of a stream word for it. Returns the parameter index and the call sites.
+func wordParamSites(p *Program, fi *FuncInfo, id *ast.Ident) (int, []argSite) {
+	info := fi.Pkg.TypesInfo
+	v, isVar := info.Uses[id].(*types.Var)
+	if !isVar || fi.Obj == nil || !neverAssigned(info, fi.Decl.Body, v) {
+		return -1, nil
+	}
+	sig := fi.Obj.Type().(*types.Signature)
+	idx := -1
+	for i := 0; i < sig.Params().Len(); i++ {
+		if sig.Params().At(i) == v {
+			idx = i
+		}
+	}
+	if idx < 0 {
+		return -1, nil
+	}
+	var sites []argSite
+	for _, caller := range streamsPkgFuncs(p) {
+		for _, cc := range callsIn(caller.Decl.Body) {
+			if fn := calleeOf(caller.Pkg.TypesInfo, cc); fn != nil && p.FuncOf(fn) == fi && idx < len(cc.Args) {
+				if caller == fi {
+					return -1, nil
+				}
+				if _, ok := wordKey(p, caller.Pkg.TypesInfo, caller, cc.Args[idx]); !ok {
+					return -1, nil
+				}
+				sites = append(sites, argSite{caller, cc, cc.Args[idx]})
+			}
+		}
+	}
+	if p.usedAsValue(fi) {
+		return -1, nil
+	}
+	return idx, sites
 }
 
 func c08r1(p *Program, r *Report) {
@@ -122,6 +166,37 @@ func c08r1(p *Program, r *Report) {
 					}
 					if name == "builtin.len" {
 						okAtomic, why = true, "len of the slice header, immutable after New"
+					}
+					// the address handed to a helper of this package that passes it to sync/atomic only
+					if _, isAddr := cur.(*ast.UnaryExpr); isAddr && !okAtomic {
+						if fn := calleeOf(info, y); fn != nil {
+							if h := p.FuncOf(fn); h != nil && h.Pkg.PkgPath == streamsPath && h.Decl.Body != nil && h.Obj != nil && !p.usedAsValue(h) {
+								hinfo := h.Pkg.TypesInfo
+								sig := h.Obj.Type().(*types.Signature)
+								for ai, a := range y.Args {
+									if a != ast.Expr(cur.(ast.Expr)) || ai >= sig.Params().Len() {
+										continue
+									}
+									pv := sig.Params().At(ai)
+									allAtomic, uses := true, 0
+									ast.Inspect(h.Decl.Body, func(z ast.Node) bool {
+										uid, isU := z.(*ast.Ident)
+										if !isU || hinfo.Uses[uid] != types.Object(pv) {
+											return true
+										}
+										uses++
+										c, isCall := p.Parent(uid).(*ast.CallExpr)
+										if !isCall || !strings.HasPrefix(calleeName(hinfo, c), "atomic.") || len(c.Args) == 0 || c.Args[0] != ast.Expr(uid) {
+											allAtomic = false
+										}
+										return true
+									})
+									if allAtomic && uses > 0 {
+										okAtomic, why = true, "address passed to "+h.Name+", which only hands it to sync/atomic"
+									}
+								}
+							}
+						}
 					}
 				case *ast.SliceExpr:
 					// s.streams[a:b] handed to a helper of this package: the helper's element accesses are checked below
@@ -227,7 +302,7 @@ func casSites(p *Program) (sites []casSite, problems []string) {
 			if !ok || calleeName(info, c) != "atomic.CompareAndSwapUint64" || len(c.Args) != 3 {
 				return true
 			}
-			idx, isWord := wordKey(info, fi, c.Args[0])
+			idx, isWord := wordKey(p, info, fi, c.Args[0])
 			if !isWord {
 				return true
 			}
@@ -298,7 +373,7 @@ func c08r2(p *Program, r *Report) {
 		for _, c := range callsIn(fi.Decl.Body) {
 			nm := calleeName(info, c)
 			if (nm == "atomic.StoreUint64" || nm == "atomic.AddUint64" || nm == "atomic.SwapUint64" || nm == "atomic.OrUint64" || nm == "atomic.AndUint64") && len(c.Args) >= 1 {
-				if _, isWord := wordKey(info, fi, c.Args[0]); isWord {
+				if _, isWord := wordKey(p, info, fi, c.Args[0]); isWord {
 					r.Bad(c, fi.Name+" changes a bitmap word only by compare-and-swap", "a word of the stream bitmap is written with "+nm+" instead of a compare-and-swap against the value it was computed from: a concurrent claim or release of another id in the same word is undone, so an id in flight is handed out again (or a free one is lost)")
 				}
 			}
@@ -335,7 +410,7 @@ func c08r2(p *Program, r *Report) {
 				lc, isCall := ast.Unparen(as.Rhs[i]).(*ast.CallExpr)
 				okLoad := false
 				if isCall && calleeName(info, lc) == "atomic.LoadUint64" && len(lc.Args) == 1 {
-					if ix, isW := wordKey(info, fi, lc.Args[0]); isW && exprStr(ix) == exprStr(st.idx) {
+					if ix, isW := wordKey(p, info, fi, lc.Args[0]); isW && exprStr(ix) == exprStr(st.idx) {
 						okLoad = true
 					}
 				}
@@ -346,6 +421,66 @@ func c08r2(p *Program, r *Report) {
 			}
 			return true
 		})
+		// the old value may come in as a parameter next to the word: then every caller passes a variable that holds
+		// nothing but loads of the word it passes
+		if ov, isVar := oldObj.(*types.Var); isVar && fi.Obj != nil {
+			sig := fi.Obj.Type().(*types.Signature)
+			for pi := 0; pi < sig.Params().Len(); pi++ {
+				if sig.Params().At(pi) != ov {
+					continue
+				}
+				wid, isWid := ast.Unparen(c.Args[0]).(*ast.Ident)
+				if !isWid {
+					fresh, why = false, "the value to compare with is a parameter but the word is not"
+					break
+				}
+				widx, sitesW := wordParamSites(p, fi, wid)
+				if len(sitesW) == 0 {
+					fresh, why = false, "the value to compare with is a parameter but the word is not one bound to a stream word by every caller"
+					break
+				}
+				for _, site := range sitesW {
+					cinfo := site.Fn.Pkg.TypesInfo
+					nd++
+					wix, _ := wordKey(p, cinfo, site.Fn, site.Call.Args[widx])
+					aid, isId := ast.Unparen(site.Call.Args[pi]).(*ast.Ident)
+					if !isId {
+						fresh, why = false, "caller passes "+exprStr(site.Call.Args[pi])
+						continue
+					}
+					aobj := cinfo.Uses[aid]
+					ndefs := 0
+					ast.Inspect(site.Fn.Decl.Body, func(x ast.Node) bool {
+						as, ok := x.(*ast.AssignStmt)
+						if !ok || len(as.Lhs) != len(as.Rhs) {
+							return true
+						}
+						for i, l := range as.Lhs {
+							lid, ok := l.(*ast.Ident)
+							if !ok || (cinfo.Defs[lid] != aobj && cinfo.Uses[lid] != aobj) {
+								continue
+							}
+							ndefs++
+							lc, isCall := ast.Unparen(as.Rhs[i]).(*ast.CallExpr)
+							okLoad := false
+							if isCall && calleeName(cinfo, lc) == "atomic.LoadUint64" && len(lc.Args) == 1 {
+								if ix, isW := wordKey(p, cinfo, site.Fn, lc.Args[0]); isW && wix != nil && exprStr(ix) == exprStr(wix) {
+									okLoad = true
+								}
+							}
+							if !okLoad {
+								fresh = false
+								why = "caller " + site.Fn.Name + ": " + aid.Name + " = " + exprStr(as.Rhs[i])
+							}
+						}
+						return true
+					})
+					if ndefs == 0 {
+						fresh, why = false, "caller "+site.Fn.Name+" passes "+aid.Name+", which it never loads"
+					}
+				}
+			}
+		}
 		if nd == 0 {
 			r.Unresolved("%s: the old value %s is not loaded in this function (passed in?)", name, st.old.Name)
 			continue
@@ -744,39 +879,130 @@ func c08r4(p *Program, r *Report) {
 			}
 		}
 	}
-	var caps []int64
-	capCond := ""
+	// the capacity the constructor ends up with for each protocol version: the assignments of constants to the
+	// capacity variable are replayed in source order, each under the conditions (on the protocol parameter) of the
+	// if statements around it
 	protoName := ""
 	if po := paramObj(info, fi.Decl.Type, 0); po != nil {
 		protoName = po.Name()
 	}
-	ast.Inspect(fi.Decl.Body, func(x ast.Node) bool {
-		switch s := x.(type) {
-		case *ast.AssignStmt:
-			if len(s.Lhs) == 1 && len(s.Rhs) == 1 && capObj != nil {
-				if id, isId := s.Lhs[0].(*ast.Ident); isId && (info.Defs[id] == capObj || info.Uses[id] == capObj) {
-					if v, ok := constInt(info, s.Rhs[0]); ok {
-						caps = append(caps, v)
-						if ifs, isIf := p.enclosing(s, fi.Decl, func(m ast.Node) bool { _, is := m.(*ast.IfStmt); return is }).(*ast.IfStmt); isIf && posWithin(ifs.Body, s.Pos()) {
-							if b, isB := ast.Unparen(ifs.Cond).(*ast.BinaryExpr); isB && exprStr(b.X) == protoName {
-								if k, isK := constInt(info, b.Y); isK {
-									capCond = "protocol " + b.Op.String() + " " + itoa(int(k))
-								}
-							}
-						}
-					}
-				}
-			}
+	type capAssign struct {
+		val   int64
+		guard []struct {
+			cond ast.Expr
+			want bool
 		}
+		ok bool
+	}
+	var capAssigns []capAssign
+	ast.Inspect(fi.Decl.Body, func(x ast.Node) bool {
+		s, isAs := x.(*ast.AssignStmt)
+		if !isAs || len(s.Lhs) != 1 || len(s.Rhs) != 1 || capObj == nil {
+			return true
+		}
+		id, isId := s.Lhs[0].(*ast.Ident)
+		if !isId || (info.Defs[id] != capObj && info.Uses[id] != capObj) {
+			return true
+		}
+		ca := capAssign{ok: true}
+		if v, ok := constInt(info, s.Rhs[0]); ok {
+			ca.val = v
+		} else {
+			ca.ok = false
+		}
+		var child ast.Node = s
+		for cur := p.Parent(s); cur != nil && cur != ast.Node(fi.Decl); cur = p.Parent(cur) {
+			switch y := cur.(type) {
+			case *ast.IfStmt:
+				switch {
+				case child == ast.Node(y.Body):
+					ca.guard = append(ca.guard, struct {
+						cond ast.Expr
+						want bool
+					}{y.Cond, true})
+				case child == y.Else:
+					ca.guard = append(ca.guard, struct {
+						cond ast.Expr
+						want bool
+					}{y.Cond, false})
+				}
+				if y.Init != nil {
+					ca.ok = false
+				}
+			case *ast.BlockStmt:
+			default:
+				ca.ok = false // inside a loop, switch, closure ..: not replayed
+			}
+			child = cur
+		}
+		capAssigns = append(capAssigns, ca)
 		return true
 	})
+	capFor := func(v int64) (int64, bool) {
+		cur, have := int64(0), false
+		for _, ca := range capAssigns {
+			if !ca.ok {
+				return 0, false
+			}
+			applies := true
+			for _, gd := range ca.guard {
+				b, isB := ast.Unparen(gd.cond).(*ast.BinaryExpr)
+				if !isB {
+					return 0, false
+				}
+				ev := &evalEnv{info: info, fi: fi, vars: map[string]int64{protoName: v}, seen: map[types.Object]bool{}}
+				a, ok1 := ev.eval(b.X)
+				c, ok2 := ev.eval(b.Y)
+				if !ok1 || !ok2 {
+					return 0, false
+				}
+				switch b.Op {
+				case token.LSS, token.LEQ, token.GTR, token.GEQ, token.EQL, token.NEQ:
+				default:
+					return 0, false
+				}
+				if cmpInt(a, b.Op, c) != gd.want {
+					applies = false
+				}
+			}
+			if applies {
+				cur, have = ca.val, true
+			}
+		}
+		return cur, have
+	}
+	okCaps := protoName != "" && len(capAssigns) > 0
+	capDesc := ""
+	for v := int64(1); v <= 5 && okCaps; v++ {
+		got, ok := capFor(v)
+		want := int64(32768)
+		if v <= 2 {
+			want = 128
+		}
+		capDesc += fmt.Sprintf(" v%d:%d", v, got)
+		if !ok || got != want {
+			okCaps = false
+		}
+	}
 	okReserve, other := false, false
 	ast.Inspect(fi.Decl.Body, func(x ast.Node) bool {
 		as, ok := x.(*ast.AssignStmt)
 		if !ok || len(as.Lhs) != 1 || len(as.Rhs) != 1 {
 			return true
 		}
-		if ix, ok := ast.Unparen(as.Lhs[0]).(*ast.IndexExpr); ok && sliceObj != nil && isIdentOf(info, ix.X, sliceObj) {
+		isWords := func(e ast.Expr) bool {
+			if sliceObj != nil && isIdentOf(info, e, sliceObj) {
+				return true
+			}
+			// the field of the generator under construction
+			if fv := fieldOf(info, e); fv != nil && fv.Name() == "streams" {
+				if sel, isSel := ast.Unparen(e).(*ast.SelectorExpr); isSel && typeNameOf(info.TypeOf(sel.X)) == "IDGenerator" {
+					return true
+				}
+			}
+			return false
+		}
+		if ix, ok := ast.Unparen(as.Lhs[0]).(*ast.IndexExpr); ok && isWords(ix.X) {
 			k, okK := constInt(info, ix.Index)
 			v, okV := constUint(info, as.Rhs[0])
 			if !okK {
@@ -798,8 +1024,7 @@ func c08r4(p *Program, r *Report) {
 		}
 		return true
 	})
-	okCaps := len(caps) == 2 && (caps[0] == 128 && caps[1] == 32768)
-	r.Check(okCaps && (capCond == "protocol > 2" || capCond == "protocol >= 3"), fi.Decl, "streams.New capacities 128 (v1-2) / 32768 (v3+)", "128 then 32768 under "+capCond, "stream capacities are not 128 for protocol <= 2 and 32768 for protocol >= 3: ids exceed the 7/15-bit stream field")
+	r.Check(okCaps, fi.Decl, "streams.New capacities 128 (v1-2) / 32768 (v3+)", "capacity by protocol version:"+capDesc, "stream capacities are not 128 for protocol <= 2 and 32768 for protocol >= 3: ids exceed the 7/15-bit stream field")
 	r.Check(okBuckets, fi.Decl, "streams.New word count = capacity / 64", "buckets = maxStreams / 64", "the number of 64-bit words is not capacity/64")
 	r.Check(okReserve && !other, fi.Decl, "streams.New reserves exactly id 0", "streams[0] = 1<<63 (the bit of id 0) and nothing else", "the constructor does not pre-set exactly the bit of stream id 0: id 0 can be handed out, or another id is lost forever")
 	// streamOffset / streamFromBucket / bucketOffset shapes
@@ -824,25 +1049,26 @@ func c08r4(p *Program, r *Report) {
 		info2 := fi2.Pkg.TypesInfo
 		name := fi2.Name
 		// resolve through a local copy: n := s.numBuckets
-		isWordCount := func(e ast.Expr) bool {
-			e = stripAllConv(info2, e)
+		isWordCountIn := func(inf *types.Info, f *FuncInfo, e ast.Expr) bool {
+			e = stripAllConv(inf, e)
 			s := strings.ReplaceAll(exprStr(e), " ", "")
 			if strings.HasSuffix(s, ".numBuckets") || strings.HasPrefix(s, "len(") && strings.HasSuffix(s, ".streams)") {
 				return true
 			}
-			if id, ok := e.(*ast.Ident); ok && info2.Uses[id] != nil && singleAssigned(info2, fi2.Decl.Body, info2.Uses[id]) {
-				if d := localDef(info2, fi2, id); d != nil {
-					ds := strings.ReplaceAll(exprStr(stripAllConv(info2, d)), " ", "")
+			if id, ok := e.(*ast.Ident); ok && inf.Uses[id] != nil && singleAssigned(inf, f.Decl.Body, inf.Uses[id]) {
+				if d := localDef(inf, f, id); d != nil {
+					ds := strings.ReplaceAll(exprStr(stripAllConv(inf, d)), " ", "")
 					return strings.HasSuffix(ds, ".numBuckets") || strings.HasPrefix(ds, "len(") && strings.HasSuffix(ds, ".streams)")
 				}
 			}
 			return false
 		}
-		modOK := func(e ast.Expr) bool {
-			e = stripAllConv(info2, e)
+		modOKIn := func(inf *types.Info, f *FuncInfo, e ast.Expr) bool {
+			e = stripAllConv(inf, e)
 			b, ok := ast.Unparen(e).(*ast.BinaryExpr)
-			return ok && b.Op == token.REM && isWordCount(b.Y)
+			return ok && b.Op == token.REM && isWordCountIn(inf, f, b.Y)
 		}
+		modOK := func(e ast.Expr) bool { return modOKIn(info2, fi2, e) }
 		idxOK, idxWhy := false, exprStr(st.idx)
 		idxExpr := stripAllConv(info2, st.idx)
 		if modOK(idxExpr) {
@@ -862,8 +1088,18 @@ func c08r4(p *Program, r *Report) {
 								nsite++
 								a := stripAllConv(ci, c.Args[k])
 								okA := false
+								// the address of a word: its index is what has to be reduced
+								if wix, isW := wordKey(p, ci, caller, a); isW {
+									a = stripAllConv(ci, wix)
+								}
+								if modOKIn(ci, caller, a) {
+									okA = true
+								}
 								if aid, ok := a.(*ast.Ident); ok {
 									if d := localDef(ci, caller, aid); d != nil {
+										if modOKIn(ci, caller, d) {
+											okA = true
+										}
 										dd := stripAllConv(ci, d)
 										if b, ok := ast.Unparen(dd).(*ast.BinaryExpr); ok && b.Op == token.REM {
 											ys := strings.ReplaceAll(exprStr(stripAllConv(ci, b.Y)), " ", "")
@@ -1102,6 +1338,9 @@ func c08r4(p *Program, r *Report) {
 								return true
 							}
 							passed := exprStr(stripAllConv(ci, hc.Args[k]))
+							if wix, isW := wordKey(p, ci, caller, hc.Args[k]); isW {
+								passed = exprStr(stripAllConv(ci, wix))
+							}
 							got := exprStr(as.Lhs[0])
 							for _, c := range callsIn(caller.Decl.Body) {
 								if isCallTo(ci, c, "streams.streamFromBucket") && len(c.Args) == 2 {
